@@ -22,6 +22,8 @@ func init() {
 }
 
 func runC09(c *report.Ctx) {
+	rulePendingMarkForEveryRelevantInput(c)
+	ruleLoopCellAddressNotRetained(c)
 	p := c.P
 	ruleSchema(c, []string{"nsUnmined", "nsUnminedInputs", "nsUnminedCredits", "nsUnminedGameHistory"}, 15, 5)
 	ruleMinedCreditShortcutBlockOnly(c)
